@@ -53,5 +53,6 @@ def replay(chk: Check, data):
     if h.get("kind") == "builtin_codes":
         chk.tv("Trace_Results.tla", [R.builtin_codes_run(h["seed"])], tag="results", keyfn=lambda r: f"results:{r.conjunct}")
         return
-    t = R.one_run(h["tbl"], [(c["type"], c["dur"], c["thin"]) for c in h["sched"]], J=h.get("J", 1))
+    t = R.one_run(h["tbl"], [(c["type"], c["dur"], c["thin"]) for c in h["sched"]], J=h.get("J", 1),
+                  shared_book=bool(h.get("shared_book")))
     chk.tv("Trace_Results.tla", [t], tag="results", keyfn=lambda r: f"results:{r.conjunct}")
